@@ -51,7 +51,7 @@ func thoroughExtras(c *Ctx, vdir string) map[string]any {
 	exe, _ := os.Executable()
 	results := make([]mutantResult, len(files))
 	var wg sync.WaitGroup
-	sem := make(chan struct{}, 4)
+	sem := make(chan struct{}, 8)
 	for i, f := range files {
 		wg.Add(1)
 		go func(i int, f string) {
